@@ -1,0 +1,266 @@
+//! Drop-in replacement for the parts of `std::net` the library uses. `UdpSocket` is the real
+//! socket unless the current thread has switched the in-process virtual network on, in which case
+//! every datagram sent ends up in a queue (the "wire") that the harness drains, and is received
+//! only when the harness delivers it.
+
+use std::cell::RefCell;
+use std::collections::{HashMap, VecDeque};
+use std::io;
+
+pub use std::net::{IpAddr, Ipv4Addr, Ipv6Addr, SocketAddr, SocketAddrV4, SocketAddrV6, ToSocketAddrs};
+
+/// A datagram in flight on the virtual network.
+#[derive(Clone, Debug)]
+pub struct Datagram {
+    pub src: SocketAddr,
+    pub dst: SocketAddr,
+    pub data: Vec<u8>,
+}
+
+struct SocketState {
+    inbox: VecDeque<(SocketAddr, Vec<u8>)>,
+    peer: Option<SocketAddr>,
+}
+
+struct VirtualNet {
+    sockets: HashMap<SocketAddr, SocketState>,
+    wire: VecDeque<Datagram>,
+    next_port: u16,
+    next_bind: VecDeque<SocketAddr>,
+}
+
+thread_local! {
+    static NET: RefCell<Option<VirtualNet>> = RefCell::new(None);
+}
+
+/// Switches the virtual network on for the current thread (discarding any previous one).
+pub fn enable() {
+    NET.with(|n| {
+        *n.borrow_mut() = Some(VirtualNet {
+            sockets: HashMap::new(),
+            wire: VecDeque::new(),
+            next_port: 40000,
+            next_bind: VecDeque::new(),
+        });
+    });
+}
+
+/// Switches the virtual network off; sockets created afterwards are real ones.
+pub fn disable() {
+    NET.with(|n| *n.borrow_mut() = None);
+}
+
+/// The next virtual `bind()` on this thread uses this address instead of the requested one.
+pub fn push_bind_addr(addr: SocketAddr) {
+    NET.with(|n| {
+        if let Some(ref mut net) = *n.borrow_mut() {
+            net.next_bind.push_back(addr);
+        }
+    });
+}
+
+/// Removes and returns everything sent since the last call, in send order.
+pub fn drain_wire() -> Vec<Datagram> {
+    NET.with(|n| {
+        if let Some(ref mut net) = *n.borrow_mut() {
+            net.wire.drain(..).collect()
+        } else {
+            Vec::new()
+        }
+    })
+}
+
+/// Puts a datagram into the receive queue of the socket bound to `dst`. Returns false if there is
+/// no such socket, or it is connected to a different peer than `src`.
+pub fn deliver(src: SocketAddr, dst: SocketAddr, data: &[u8]) -> bool {
+    NET.with(|n| {
+        if let Some(ref mut net) = *n.borrow_mut() {
+            if let Some(sock) = net.sockets.get_mut(&dst) {
+                if sock.peer.map_or(true, |p| p == src) {
+                    sock.inbox.push_back((src, data.to_vec()));
+                    return true;
+                }
+            }
+        }
+        false
+    })
+}
+
+/// Number of virtual sockets currently bound on this thread.
+pub fn socket_count() -> usize {
+    NET.with(|n| n.borrow().as_ref().map_or(0, |net| net.sockets.len()))
+}
+
+/// Number of undelivered datagrams queued at the socket bound to `addr`.
+pub fn inbox_len(addr: SocketAddr) -> usize {
+    NET.with(|n| n.borrow().as_ref().and_then(|net| net.sockets.get(&addr)).map_or(0, |s| s.inbox.len()))
+}
+
+pub struct VirtualSocket {
+    local: SocketAddr,
+}
+
+impl Drop for VirtualSocket {
+    fn drop(&mut self) {
+        let local = self.local;
+        let _ = NET.try_with(|n| {
+            if let Ok(mut n) = n.try_borrow_mut() {
+                if let Some(ref mut net) = *n {
+                    net.sockets.remove(&local);
+                }
+            }
+        });
+    }
+}
+
+pub enum UdpSocket {
+    Real(std::net::UdpSocket),
+    Virtual(VirtualSocket),
+}
+
+fn first_addr<A: ToSocketAddrs>(addr: A) -> io::Result<SocketAddr> {
+    addr.to_socket_addrs()?.next().ok_or_else(|| io::Error::new(io::ErrorKind::InvalidInput, "no addresses"))
+}
+
+impl UdpSocket {
+    pub fn bind<A: ToSocketAddrs>(addr: A) -> io::Result<Self> {
+        let is_virtual = NET.with(|n| n.borrow().is_some());
+
+        if !is_virtual {
+            return std::net::UdpSocket::bind(addr).map(UdpSocket::Real);
+        }
+
+        let requested = first_addr(addr)?;
+
+        NET.with(|n| {
+            let mut n = n.borrow_mut();
+            let net = n.as_mut().unwrap();
+
+            let local = if let Some(forced) = net.next_bind.pop_front() {
+                forced
+            } else {
+                let ip = if requested.ip().is_unspecified() {
+                    match requested {
+                        SocketAddr::V4(_) => IpAddr::V4(Ipv4Addr::LOCALHOST),
+                        SocketAddr::V6(_) => IpAddr::V6(Ipv6Addr::LOCALHOST),
+                    }
+                } else {
+                    requested.ip()
+                };
+                let port = if requested.port() == 0 {
+                    loop {
+                        let p = net.next_port;
+                        net.next_port = if p == u16::MAX { 40000 } else { p + 1 };
+                        if !net.sockets.contains_key(&SocketAddr::new(ip, p)) {
+                            break p;
+                        }
+                    }
+                } else {
+                    requested.port()
+                };
+                SocketAddr::new(ip, port)
+            };
+
+            if net.sockets.contains_key(&local) {
+                return Err(io::Error::new(io::ErrorKind::AddrInUse, "virtual address in use"));
+            }
+
+            net.sockets.insert(local, SocketState { inbox: VecDeque::new(), peer: None });
+
+            Ok(UdpSocket::Virtual(VirtualSocket { local }))
+        })
+    }
+
+    pub fn set_nonblocking(&self, nonblocking: bool) -> io::Result<()> {
+        match self {
+            UdpSocket::Real(s) => s.set_nonblocking(nonblocking),
+            UdpSocket::Virtual(_) => Ok(()),
+        }
+    }
+
+    pub fn connect<A: ToSocketAddrs>(&self, addr: A) -> io::Result<()> {
+        match self {
+            UdpSocket::Real(s) => s.connect(addr),
+            UdpSocket::Virtual(v) => {
+                let peer = first_addr(addr)?;
+                NET.with(|n| {
+                    if let Some(ref mut net) = *n.borrow_mut() {
+                        if let Some(sock) = net.sockets.get_mut(&v.local) {
+                            sock.peer = Some(peer);
+                        }
+                    }
+                });
+                Ok(())
+            }
+        }
+    }
+
+    pub fn local_addr(&self) -> io::Result<SocketAddr> {
+        match self {
+            UdpSocket::Real(s) => s.local_addr(),
+            UdpSocket::Virtual(v) => Ok(v.local),
+        }
+    }
+
+    pub fn peer_addr(&self) -> io::Result<SocketAddr> {
+        match self {
+            UdpSocket::Real(s) => s.peer_addr(),
+            UdpSocket::Virtual(v) => {
+                NET.with(|n| n.borrow().as_ref().and_then(|net| net.sockets.get(&v.local)).and_then(|s| s.peer))
+                    .ok_or_else(|| io::Error::new(io::ErrorKind::NotConnected, "not connected"))
+            }
+        }
+    }
+
+    pub fn send_to<A: ToSocketAddrs>(&self, buf: &[u8], addr: A) -> io::Result<usize> {
+        match self {
+            UdpSocket::Real(s) => s.send_to(buf, addr),
+            UdpSocket::Virtual(v) => {
+                let dst = first_addr(addr)?;
+                NET.with(|n| {
+                    if let Some(ref mut net) = *n.borrow_mut() {
+                        net.wire.push_back(Datagram { src: v.local, dst, data: buf.to_vec() });
+                    }
+                });
+                Ok(buf.len())
+            }
+        }
+    }
+
+    pub fn send(&self, buf: &[u8]) -> io::Result<usize> {
+        match self {
+            UdpSocket::Real(s) => s.send(buf),
+            UdpSocket::Virtual(_) => {
+                let peer = self.peer_addr()?;
+                self.send_to(buf, peer)
+            }
+        }
+    }
+
+    pub fn recv_from(&self, buf: &mut [u8]) -> io::Result<(usize, SocketAddr)> {
+        match self {
+            UdpSocket::Real(s) => s.recv_from(buf),
+            UdpSocket::Virtual(v) => {
+                let next = NET.with(|n| {
+                    n.borrow_mut().as_mut().and_then(|net| net.sockets.get_mut(&v.local)).and_then(|s| s.inbox.pop_front())
+                });
+                match next {
+                    Some((src, data)) => {
+                        // Like UDP: excess bytes of an oversized datagram are discarded
+                        let len = data.len().min(buf.len());
+                        buf[..len].copy_from_slice(&data[..len]);
+                        Ok((len, src))
+                    }
+                    None => Err(io::Error::new(io::ErrorKind::WouldBlock, "no datagram")),
+                }
+            }
+        }
+    }
+
+    pub fn recv(&self, buf: &mut [u8]) -> io::Result<usize> {
+        match self {
+            UdpSocket::Real(s) => s.recv(buf),
+            UdpSocket::Virtual(_) => self.recv_from(buf).map(|(len, _)| len),
+        }
+    }
+}
